@@ -204,14 +204,15 @@ def rotation(ax: str | int = None, ang: float = 0.0, degrees: bool = False) -> n
     # Handle input
     if ang == 0.0:
         return I_3
-    if np.isclose((ang*DEG2RAD) % (2*np.pi), 0.0):
+    if degrees:
+        ang = ang*DEG2RAD
+    # Whole turns (the angle is in radians here; exact test, no tolerance)
+    if ang % (2*np.pi) == 0.0:
         return I_3
     # Return 3-by-3 Identity matrix if invalid input
     if ax not in valid_axes:
         return I_3
     # Set sin and cos values
-    if degrees:
-        ang = ang*DEG2RAD
     ca, sa = np.cos(ang), np.sin(ang)
     # Compute rotation
     if ax.lower() == "x":
